@@ -578,6 +578,7 @@ var preludeAxioms = [][2]string{
 	{"f-le-trans", "(forall ((a F) (b F) (c F)) (! (=> (and (f_le a b) (f_le b c)) (f_le a c)) :pattern ((f_le a b) (f_le b c))))"},
 	{"f-lt-le-trans", "(forall ((a F) (b F) (c F)) (! (=> (and (f_lt a b) (f_le b c)) (f_lt a c)) :pattern ((f_lt a b) (f_le b c))))"},
 	{"f-le-lt-trans", "(forall ((a F) (b F) (c F)) (! (=> (and (f_le a b) (f_lt b c)) (f_lt a c)) :pattern ((f_le a b) (f_lt b c))))"},
+	{"f-le-nonnan", "(forall ((a F) (b F)) (! (=> (f_le a b) (and (f_eq a a) (f_eq b b))) :pattern ((f_le a b))))"},
 	{"f-fin-refl", "(forall ((a F)) (! (=> (f_fin a) (f_eq a a)) :pattern ((f_fin a))))"},
 	{"f-total-fin", "(forall ((a F) (b F)) (! (=> (and (f_fin a) (f_fin b)) (or (f_lt a b) (f_eq a b) (f_lt b a))) :pattern ((f_fin a) (f_fin b))))"},
 	{"i2f-fin", "(forall ((i Int)) (! (f_fin (i2f i)) :pattern ((i2f i))))"},
